@@ -4,7 +4,9 @@
    the shared genome model Mep/Genome.v.  Function by function, same branch
    structure, same order of random draws (Mep/Draws.v).  Definitions only. *)
 From Coq Require Import ZArith List Bool Arith.
+Local Ltac c02_scan0 := idtac. (* separates the Require lines for the dependency scanner of lib/vv.py *)
 From VV Require Import Base.F64 Mep.Genome Mep.Draws.
+Local Ltac c02_scan1 := idtac.
 Import ListNotations.
 Local Open Scope Z_scope.
 
@@ -393,75 +395,9 @@ End Cse.
 Definition cse (i : ind) : option ind :=
   match cse_genome gene_cmp (i_gen i) with Some g => Some (with_gen i g) | None => None end.
 
-(* The pinned comparator is not a strict weak order, so std::map gives no
-   guarantee beyond: the node find returns is equivalent to the key.  Oracle
-   model: each lookup is resolved by a choice ([None] = end(), [Some j] = the
-   j-th equivalent entry); try_emplace inserts iff its own lookup failed. *)
-Section CseAny.
-Variable cmp : gene -> gene -> bool.
-Definition candidates (k : gene) (m : kmap) : list (gene * locus) :=
-  filter (fun e => gene_equiv cmp k (fst e)) m.
-Definition kfind_any (k : gene) (m : kmap) (ch : option nat) : option (option locus) :=
-  match ch with
-  | None => Some None
-  | Some j => match nth_error (candidates k m) j with Some e => Some (Some (snd e)) | None => None end
-  end.
-Definition MC (A : Type) := list (option nat) -> option (A * list (option nat)).
-Definition cse_arg_any (g : genome) (m : kmap) (al : locus) : MC nat := fun chs =>
-  match chs with
-  | [] => None
-  | ch :: chs' =>
-      match gene_at g al with
-      | None => None
-      | Some ga => match kfind_any ga m ch with
-                   | Some (Some w) => Some (l_index w, chs')
-                   | Some None => Some (l_index al, chs')
-                   | None => None
-                   end
-      end
-  end.
-Fixpoint mapC {A B} (f : A -> MC B) (l : list A) : MC (list B) := fun chs =>
-  match l with
-  | [] => Some ([], chs)
-  | a :: r => match f a chs with
-              | Some (b, chs') => match mapC f r chs' with Some (bs, chs'') => Some (b :: bs, chs'') | None => None end
-              | None => None
-              end
-  end.
-Definition cse_cell_any (st : genome * kmap) (rc : nat * nat) : MC (genome * kmap) := fun chs =>
-  match cell (fst st) (fst rc) (snd rc) with
-  | None => None
-  | Some ge =>
-      match mapC (cse_arg_any (fst st) (snd st)) (arguments ge) chs with
-      | None => None
-      | Some (args', chs') =>
-          let ge' := {| g_sym := g_sym ge; g_par := g_par ge; g_args := args' |} in
-          match chs' with
-          | [] => None
-          | ch :: chs'' =>
-              match kfind_any ge' (snd st) ch with
-              | None => None
-              | Some found =>
-                  Some ((set_cell (fst st) (fst rc) (snd rc) ge',
-                         match found with
-                         | Some _ => snd st
-                         | None => (ge', {| l_index := fst rc; l_cat := snd rc |}) :: snd st
-                         end), chs'')
-              end
-          end
-      end
-  end.
-Fixpoint foldC {S A} (f : S -> A -> MC S) (l : list A) (s : S) : MC S := fun chs =>
-  match l with
-  | [] => Some (s, chs)
-  | a :: r => match f s a chs with Some (s', chs') => foldC f r s' chs' | None => None end
-  end.
-Definition cse_genome_any (g : genome) (chs : list (option nat)) : option genome :=
-  match foldC cse_cell_any (cse_loci (rows g) (cats g)) (g, []) chs with
-  | Some (st, _) => Some (fst st)
-  | None => None
-  end.
-End CseAny.
+(* The pinned comparator [gene_cmp_old] is not a strict weak order (see
+   Props/Refuted_C02.v), so std::map gives no guarantee at all for it; it is
+   kept only to state that refutation and is not used by any operator. *)
 
 (* hypothesis of cse_wf, executable: on the parameters that occur in the
    genome, "neither is less" (F64.ltb) is reflexive and transitive -- true
